@@ -163,6 +163,9 @@ fn main() {
         }
         report.sample(json!({"case": unit_json(&case), "impl": impl_out, "model": model_out}));
         if differs {
+            report.bump("unit.disagreements_total");
+        }
+        if differs && report.disagreements.len() < 20 {
             // shrink the predicate trees, keeping the disagreement
             let mut cur = case.clone();
             let mut progress = true;
